@@ -327,12 +327,10 @@ example : exLive.isTimedOut 5999 = false ∧ exLive.isTimedOut 6000 = true ∧
     ({ exLive with connTimeoutMs := 9000 } : FLink Int).isTimedOut 10000 = true := by decide
 
 /-- For a torn-down link (`connected = false`): past the start-up grace (or once established) it is
-timed out iff nothing was received since the reset or the last datagram is at least
-`conn_timeout_ms` old. -/
+always timed out, i.e. due for (re-)registration, whatever it has heard since the reset (a straggler
+datagram refreshing `last_received` does not postpone the next attempt). -/
 theorem C08_timed_out_disconnected (l : FLink F) (now : Nat) (hc : l.core.connected = false) :
-    l.isTimedOut now = true ↔
-      ¬ (l.established = 0 ∧ now < l.graceDeadline) ∧
-      (l.core.lastReceived = none ∨ ∃ lr, l.core.lastReceived = some lr ∧ now - lr ≥ l.connTimeoutMs) := by
+    l.isTimedOut now = true ↔ ¬ (l.established = 0 ∧ now < l.graceDeadline) := by
   unfold FLink.isTimedOut Select.isTimedOut FLink.toSLink
   simp only [hc, Bool.not_false, if_true]
   by_cases hg : l.established = 0 ∧ now < l.graceDeadline
@@ -342,10 +340,7 @@ theorem C08_timed_out_disconnected (l : FLink F) (now : Nat) (hc : l.core.connec
       by_cases h0 : l.established = 0
       · right; exact fun h => hg ⟨h0, h⟩
       · left; exact h0
-    simp only [this, Bool.false_eq_true, if_false, hg, not_false_eq_true, true_and]
-    cases l.core.lastReceived with
-    | none => simp
-    | some lr => simp
+    simp only [this, Bool.false_eq_true, if_false, hg, not_false_eq_true]
 
 /-- **The timeout a link is judged by is the configured one as of the latest selection pass.**
 (a) a selection pass (`select_connection_idx`, run for every client datagram after registration)
@@ -695,18 +690,19 @@ REG2 with the group id `[1]` on the down link (conn id 7). -/
 example : (7, Codec.createReg2 [1]) ∈ (step exSys (.hk 7000)).2.wire :=
   C08_attempt_sends_reg2 exSys 7000 1 exDown rfl rfl (by decide) (by decide) (by decide)
 
-/-- A torn-down, previously established link: not connected, nothing received since the reset. -/
+/-- A torn-down, previously established link: not connected (whatever it has heard since the reset:
+a straggler datagram may have refreshed `last_received`). -/
 def Down (l : FLink F) : Prop :=
-  l.core.connected = false ∧ l.core.lastReceived = none ∧ l.established ≠ 0 ∧ l.failCount = 0
+  l.core.connected = false ∧ l.established ≠ 0 ∧ l.failCount = 0
 
 theorem C08_aux_down_timed_out (l : FLink F) (h : Down l) (now : Nat) : l.isTimedOut now = true := by
-  obtain ⟨h1, h2, h3, -⟩ := h
+  obtain ⟨h1, h3, -⟩ := h
   rw [C08_timed_out_disconnected l now h1]
-  exact ⟨fun hh => h3 hh.1, Or.inl h2⟩
+  exact fun hh => h3 hh.1
 
 theorem C08_aux_down_ready (l : FLink F) (h : Down l) (now : Nat) :
     l.shouldAttemptReconnect now = true ↔ (l.lastAttemptMs = 0 ∨ now - l.lastAttemptMs ≥ 5000) := by
-  obtain ⟨-, -, h3, h4⟩ := h
+  obtain ⟨-, h3, h4⟩ := h
   have hb : l.backoffDelay = 5000 := (C08_backoff_table l).1 h4
   constructor
   · intro hs
@@ -837,16 +833,22 @@ theorem C08_reconnect_within_30s_partial (classic : Bool) (j : Nat) (l : FLink F
   rw [hct] at hge
   omega
 
-/-- Non-vacuity: `exDown` (last attempt at 2000) with ticks at 2500, 3600, …, 8000 (1100 apart, REG3
-answers 100 ms after each tick): the hypotheses hold; the attempt happens at 8000 < 2000 + 6100. -/
-example : Down exDown ∧ 0 < exDown.connTimeoutMs ∧
+/-- A down link that heard a straggler datagram at 2400 after its tear-down, under a 60 s timeout:
+before the `fix:` commit recorded in known_findings.json this link made no attempt before 62400. -/
+def exDownHeard : FLink Int :=
+  { exDown with core := { exDown.core with lastReceived := some 2400 }, connTimeoutMs := 60000 }
+
+/-- Non-vacuity: `exDownHeard` (last attempt at 2000, straggler heard at 2400, timeout 60 s) with ticks
+at 2500, 3600, …, 8000 (1100 apart, REG3 answers 100 ms after each tick): the hypotheses hold; the
+attempt happens at 8000 < 2000 + 6100. -/
+example : Down exDownHeard ∧ 0 < exDownHeard.connTimeoutMs ∧
     Gaps 2500 [(3600, 3700), (4700, 4800), (5800, 5900), (6900, 7000), (8000, 8100)] ∧
     (∃ x ∈ [(2500, 2600), (3600, 3700), (4700, 4800), (5800, 5900), (6900, 7000), (8000, 8100)],
-      x.1 ≥ exDown.lastAttemptMs + 5000) ∧
-    (liveRun false 1 exDown
+      x.1 ≥ exDownHeard.lastAttemptMs + 5000) ∧
+    (liveRun false 1 exDownHeard
       [(2500, 2600), (3600, 3700), (4700, 4800), (5800, 5900), (6900, 7000), (8000, 8100)]).core.connected = true ∧
-    (liveRun false 1 exDown
+    (liveRun false 1 exDownHeard
       [(2500, 2600), (3600, 3700), (4700, 4800), (5800, 5900), (6900, 7000)]).core.connected = false := by
-  refine ⟨⟨rfl, rfl, by decide, rfl⟩, by decide, by simp [Gaps], ⟨(8000, 8100), by simp, by decide⟩, by decide, by decide⟩
+  refine ⟨⟨rfl, by decide, rfl⟩, by decide, by simp [Gaps], ⟨(8000, 8100), by simp, by decide⟩, by decide, by decide⟩
 
 end Srtla.Props.C08
